@@ -1,5 +1,5 @@
 (* C14 -- dialers reconnect after loss, back off as configured, stop when closed.  Statements only. *)
-From MV Require Import Model.Core Model.CoreOracle Proofs.CoreProofs.
+From MV Require Import Model.Core Model.CoreOracle Proofs.CoreProofs Proofs.CoreClose.
 Open Scope N_scope.
 
 (* a closed dialer never starts a connection attempt, whatever timer or callback asks for one *)
@@ -20,3 +20,20 @@ Print Assumptions C14_backoff_capped.
 Theorem C14_backoff_no_max : forall lo hi, next_interval 0 lo hi = (lo, hi).
 Proof. exact backoff_no_max. Qed.
 Print Assumptions C14_backoff_no_max.
+
+(* EVERY history of stimuli on the model of the repaired core (dialer names not reused after Close): once a dialer or the
+   socket has been closed, no later step starts a connection attempt for it -- whatever redial timers are still pending
+   (the pipeClosed timer cannot be stopped by Close), whatever pipes come and go.  c14_oracle is the trace oracle the
+   correspondence check applies to the implementation's traces. *)
+Theorem C14_no_attempt_after_close_all_histories : forall h, wf_from [] h ->
+  c14_oracle (kmodel_trace true true kinit h) = None.
+Proof. exact no_attempt_after_close_all_histories. Qed.
+Print Assumptions C14_no_attempt_after_close_all_histories.
+
+(* the premise is satisfiable: a history with a close, pending timers and later passes meets it *)
+Definition c14_witness : list kstim :=
+  [ KNewDialer 1 true 30 120; KDial 1 1; KResolve 1 DRefused 0; KPass 100; KResolve 1 DOk 1; KPipeFail 1; KCloseDialer 2 1;
+    KPass 400; KNewDialer 2 true 30 0; KDial 3 2; KCloseSock 4; KResolve 2 DRefused 0; KPass 900 ].
+Theorem C14_wf_premise_witness : wf_from [] c14_witness.
+Proof. apply wf_fromb_sound. vm_compute. reflexivity. Qed.
+Print Assumptions C14_wf_premise_witness.
